@@ -29,7 +29,7 @@ EXPLANATION = (
     "load_latency and the multipliers map to numbers. D2: --db-check appends to each list under "
     "`is None` of the like-named field, returns/unpacks/passes the lists in matching order and prints "
     "len() of the right list. R3: every reader that indexes port_uops as a list of pairs is dominated "
-    "by a resolution of an alternatives map, on the --fixed path too."
+    "by a resolution of an alternatives map, on the --fixed path too. D0b: the fields the schema allows to be missing (throughput / latency `~`) are tested for None by every consumer before arithmetic, max() or += - in the direct path and where an entry is used as the register form of a memory instruction (obligation of C08-R2, embedded)."
 )
 NOT_DECIDED = (
     "That no other run-time path crashes for an instruction matching a shipped form (only the "
@@ -719,6 +719,12 @@ def run(ctx):
     C.require_locals(ctx, ctx.func('ArchSemantics._handle_instruction_found'), ['instruction_form', 'instruction_data'])
     C.require_locals(ctx, ctx.func('ArchSemantics.assign_optimal_throughput'), ['instruction_form', 'kernel', 'idx'])
     _d0_consumers(ctx)
+    # D0b: the schema allows `throughput: ~` / `latency: ~` (measurement missing): the code that costs an entry - directly or
+    # as the register form of a memory instruction - tests such a field for None before arithmetic (shared with C08-R2)
+    from . import c08
+    ctx.rule("D0b", "None-able entry fields (throughput, latency: ~ is allowed by the schema) are tested before arithmetic (C08-R2)")
+    C.embed(ctx, "C08", c08._r2, "D0b", "missing measurement (C08-R2)",
+            "a shipped form with `throughput: ~` / `latency: ~` - which the schema allows - cannot be costed", ctx.func("ArchSemantics.assign_tp_lt").where())
     ctx.rule("D1", "every entry / table row / default of every non-empty data file satisfies the schema")
     models = ctx.data.models()
     isas = ctx.data.isas()
